@@ -32,6 +32,9 @@ struct Parts {
     /// the start that fails (causes StartErr / StartPanic) is the one of a *restart*, requested
     /// by the driver at t=2: the first incarnation ran, registered its timers, took its children
     on_restart: bool,
+    /// registry: the instance spawned on demand after A's failure fails in started() as well,
+    /// while another client installs a healthy instance with replace(): the healthy one stays
+    respawn_race: bool,
 }
 
 struct S {
@@ -55,6 +58,7 @@ const LATE: u8 = 4;
 const OUTSIDE: u8 = 5;
 const REG: u8 = 6;
 const PUB: u8 = 7;
+const REPLACER: u8 = 8;
 const TOPIC_MSG: u32 = 77;
 
 pub async fn registry_client(c: u8) {
@@ -84,6 +88,9 @@ impl Scene for S {
             Cause::StoppedPanic => v[0].stopped_panic = true,
             Cause::TimeoutFail(_) => v[0].work.push((SLOW_MSG, Work { sleep: 5, ..Work::default() })),
             _ => {}
+        }
+        if self.parts.respawn_race {
+            v[4].started = vec![StartBeh::Err];
         }
         v
     }
@@ -180,8 +187,40 @@ impl Scene for S {
         if let Some(c3) = outside_child {
             exec.spawn_client(OUTSIDE, run_client(OUTSIDE, Handles::with_addr(c3), vec![Op::Sleep(9), Op::Call(H::Addr(0), 740), Op::Drop(H::Addr(0))]));
         }
-        if p.registry {
+        if p.registry && p.respawn_race {
+            // one lookup only (so that its on-demand spawn really races with the replace below)
+            exec.spawn_client(REG, async {
+                use futures::FutureExt as _;
+                let mut held: Option<Addr<Probe<0>>> = None;
+                world::log(Ev::Begin { c: REG, i: 0 });
+                world::sleep(8).await;
+                world::log(Ev::End { c: REG, i: 0, r: Res::Ok });
+                world::log(Ev::Begin { c: REG, i: 1 });
+                let r = std::panic::AssertUnwindSafe(c08::reg_op::<0>(&mut held, c08::ROp::FromRegistry)).catch_unwind().await.unwrap_or(Res::Panicked);
+                world::log(Ev::End { c: REG, i: 1, r });
+            });
+        } else if p.registry {
             exec.spawn_client(REG, registry_client(REG));
+        }
+        if p.respawn_race {
+            exec.spawn_client(REPLACER, async {
+                use futures::FutureExt as _;
+                let mut held: Option<Addr<Probe<0>>> = None;
+                world::log(Ev::Begin { c: REPLACER, i: 0 });
+                world::sleep(8).await;
+                world::log(Ev::End { c: REPLACER, i: 0, r: Res::Ok });
+                // replace, then - once everything has settled - ask the registry about it
+                let script = [(c08::ROp::ReplaceNew, 0u32), (c08::ROp::AlreadyRunning, 4), (c08::ROp::TryFromRegistry, 0)];
+                for (k, (op, pause)) in script.iter().enumerate() {
+                    if *pause > 0 {
+                        world::sleep(*pause).await;
+                    }
+                    let i = k as u16 + 1;
+                    world::log(Ev::Begin { c: REPLACER, i });
+                    let r = std::panic::AssertUnwindSafe(c08::reg_op::<0>(&mut held, *op)).catch_unwind().await.unwrap_or(Res::Panicked);
+                    world::log(Ev::End { c: REPLACER, i, r });
+                }
+            });
         }
         if p.broker {
             // two healthy subscribers (roles 1 and 2), and a publisher that keeps A's address
@@ -285,6 +324,21 @@ impl Scene for S {
                 }
             }
         }
+        // --- the healthy instance somebody installed stays registered, whatever fails around it
+        if self.parts.respawn_race {
+            let r = |i: u16| an.op(REPLACER, i).and_then(|o| o.res);
+            if let (Some(Res::Reg { .. }), Some(res)) = (r(1), r(2)) {
+                crate::check::oblige("registry-not-running");
+                if res != Res::OptBool(Some(true)) {
+                    v("registry-keeps-healthy-instance", format!("C06/healthy-instance-evicted/already_running/cause={ck}"), format!("a healthy instance was installed with replace(); after the dust had settled already_running said {res:?}"));
+                }
+            }
+            if let (Some(Res::Reg { .. }), Some(res)) = (r(1), r(3)) {
+                if !matches!(res, Res::Reg { present: true, ident: Some(_) }) {
+                    v("registry-keeps-healthy-instance", format!("C06/healthy-instance-evicted/try_from_registry/cause={ck}"), format!("a healthy instance was installed with replace(); afterwards try_from_registry returned {res:?}"));
+                }
+            }
+        }
         // --- a broker topic A was subscribed to still serves the healthy subscribers
         if self.parts.broker {
             if let Some(o) = an.op(PUB, 1) {
@@ -368,7 +422,7 @@ impl Scene for S {
             }
         }
         // --- the registry treats it as not running
-        if self.parts.registry {
+        if self.parts.registry && !self.parts.respawn_race {
             crate::check::oblige("registry-not-running");
             let r = |i: u16| an.op(REG, i).and_then(|o| o.res);
             if let Some(res) = r(1) {
@@ -430,10 +484,11 @@ fn base_cases(tier: Tier) -> Vec<Case> {
         ("timers+children", Parts { timers: true, children: true, ..Parts::default() }),
         ("bystander+registry", Parts { bystander: true, registry: true, ..Parts::default() }),
         ("broker", Parts { broker: true, ..Parts::default() }),
+        ("registry, the respawned instance fails too while a healthy one is installed", Parts { registry: true, respawn_race: true, ..Parts::default() }),
         ("timers, the start of a restart fails", Parts { timers: true, on_restart: true, ..Parts::default() }),
         ("children+later-ops, the start of a restart fails", Parts { children: true, late_ops: true, on_restart: true, ..Parts::default() }),
     ];
-    let full = Parts { bystander: true, children: true, timers: true, registry: true, awaiters: true, late_ops: true, broker: false, on_restart: false };
+    let full = Parts { bystander: true, children: true, timers: true, registry: true, awaiters: true, late_ops: true, broker: false, on_restart: false, respawn_race: false };
     let mbs: &[Mailbox] = if tier == Tier::Quick { &[Mailbox::U] } else { &[Mailbox::U, Mailbox::B(1)] };
     for cause in causes(tier) {
         for &mb in mbs {
@@ -443,7 +498,12 @@ fn base_cases(tier: Tier) -> Vec<Case> {
                 }
                 // A is spawned after its children: its index among backend-spawned tasks
                 let a_index = if parts.children { 2 } else { 0 };
-                let big = matches!(*name, "timers+children" | "bystander+registry" | "awaiters+owner" | "broker");
+                let big = matches!(*name, "timers+children" | "bystander+registry" | "awaiters+owner" | "broker") ;
+                // (release semantics only: with debug assertions hannibal panics in the caller of
+                // from_registry when the fresh instance fails to start)
+                if parts.respawn_race && cfg!(debug_assertions) {
+                    continue;
+                }
                 v.push(Case {
                     desc: format!("containment sub={name} cause={cause:?} mailbox={}", mb.name()),
                     exec: ExecCfg { horizon: 30, cancel: if let Cause::Cancel(j) = cause { Some((a_index, j)) } else { None }, ..ExecCfg::default() },
